@@ -24,6 +24,7 @@ type c14Case struct {
 	OtherFirst bool   `json:"other_first"` // another peer is connected before the submissions
 	Restart    bool   `json:"restart"`     // restart the node while bundles wait
 	Second     int    `json:"second"`      // a second group of this size follows later (after the restart, if any)
+	Fragment   bool   `json:"fragment,omitempty"`  // the applications submit fragments (offset 0 of 2000 bytes each): the ID then also carries offset and total length
 	SameTime   bool   `json:"same_time,omitempty"` // the second group carries the creation time of the first one (an application that stamps its bundles itself)
 	Preset     int    `json:"preset,omitempty"` // sequence numbers the application put into its bundles: 0 none (zero), 1 = 1,2,3,..., 2 = all 7
 	Gap        []int  `json:"gap,omitempty"` // bundles of the first group that reach the destination (and leave the store) before the restart: the stored sequence numbers get gaps
@@ -101,6 +102,10 @@ func c14Body(c *vk.Ctx, cs c14Case) {
 		var bs []bpv7.Bundle
 		for i := 0; i < n; i++ {
 			b, p := c14Bundle(i, group, t, cs.Epoch)
+			if cs.Fragment {
+				b.PrimaryBlock.BundleControlFlags |= bpv7.IsFragment
+				b.PrimaryBlock.FragmentOffset, b.PrimaryBlock.TotalDataLength = 0, 2000
+			}
 			switch cs.Preset {
 			case 1: // an application that numbers its own bundles (e.g. a WebSocket client handing over complete bundles)
 				b.PrimaryBlock.CreationTimestamp[1] = uint64(i + 1)
@@ -285,13 +290,13 @@ func c14Body(c *vk.Ctx, cs c14Case) {
 
 func TestVerifC14Groups(t *testing.T) {
 	u := vk.Unit{Property: "C14", Name: "c14.groups", Quick: 360, Thorough: 5000,
-		Rule: "groups of 2..6 distinct bundles with identical source and creation time (same millisecond, or epoch time + age block; sequence numbers as the builder leaves them, or pre-set by the application to 1,2,3,... or all to 7) submitted sequentially through Core.SendBundle, through an application agent and the agent manager, or concurrently from 2..6 goroutines; with no peer, another peer, or the destination peer connected; optionally the destination is connected for a moment so that some bundles of the group leave the store (stored sequence numbers with gaps); followed by an optional restart, a second group (with a creation time of its own or with the first group's), a retry tick and the appearance of the destination; oracle on the bytes seen by the scripted peers and on the store after every step: distinct payloads <=> distinct IDs, one ID per payload for ever, every bundle not yet handed to its destination is filed as pending and loads its own payload under the ID it was transmitted with, finally every bundle reaches the destination; non-trivial = group of >= 2 that had to wait in the store; distinct by case hash"}
+		Rule: "groups of 2..6 distinct bundles (whole bundles, or fragments with one offset and total length) with identical source and creation time (same millisecond, or epoch time + age block; sequence numbers as the builder leaves them, or pre-set by the application to 1,2,3,... or all to 7) submitted sequentially through Core.SendBundle, through an application agent and the agent manager, or concurrently from 2..6 goroutines; with no peer, another peer, or the destination peer connected; optionally the destination is connected for a moment so that some bundles of the group leave the store (stored sequence numbers with gaps); followed by an optional restart, a second group (with a creation time of its own or with the first group's), a retry tick and the appearance of the destination; oracle on the bytes seen by the scripted peers and on the store after every step: distinct payloads <=> distinct IDs, one ID per payload for ever, every bundle not yet handed to its destination is filed as pending and loads its own payload under the ID it was transmitted with, finally every bundle reaches the destination; non-trivial = group of >= 2 that had to wait in the store; distinct by case hash"}
 	vk.Check(t, u, func(t *rapid.T) c14Case {
 		return c14Case{Algo: rapid.SampledFrom([]string{"epidemic", "epidemic", "spray", "prophet"}).Draw(t, "algo"), N: rapid.IntRange(2, 6).Draw(t, "n"),
 			Epoch: rapid.IntRange(0, 2).Draw(t, "epoch") == 0, Path: rapid.SampledFrom([]string{"send", "send", "agent", "concurrent"}).Draw(t, "path"),
 			DestFirst: rapid.IntRange(0, 3).Draw(t, "destfirst") == 0, OtherFirst: rapid.Bool().Draw(t, "otherfirst"),
 			Restart: rapid.IntRange(0, 2).Draw(t, "restart") == 0, Second: rapid.SampledFrom([]int{0, 0, 1, 3}).Draw(t, "second"),
-			Gap: rapid.SliceOfN(rapid.IntRange(0, 5), 0, 2).Draw(t, "gap"), Preset: rapid.SampledFrom([]int{0, 0, 1, 2}).Draw(t, "preset"), SameTime: rapid.Bool().Draw(t, "sametime")}
+			Gap: rapid.SliceOfN(rapid.IntRange(0, 5), 0, 2).Draw(t, "gap"), Preset: rapid.SampledFrom([]int{0, 0, 1, 2}).Draw(t, "preset"), SameTime: rapid.Bool().Draw(t, "sametime"), Fragment: rapid.IntRange(0, 3).Draw(t, "fragment") == 0}
 	}, c14Body)
 }
 
